@@ -604,7 +604,7 @@ fn deepest(nodes: &[crate::reader::Node], pos: usize) -> Option<String> {
 fn mux_strategy(invalid: bool) -> BoxedStrategy<MuxCase> {
     (
         (0u8..4, 0u8..8, prop::bool::weighted(0.85)),
-        (320u32..=4096, 240u32..=2160, prop_oneof![3 => Just(30000u32), 1 => Just(29970u32), 2 => 1u32..=120_000]),
+        (320u32..=4096, 240u32..=2160, prop_oneof![6 => Just(30000u32), 2 => Just(29970u32), 4 => 1u32..=120_000, 1 => 1u32..1000, 1 => proptest::sample::select(vec![500u32, 200, 999, 1000, 1001, 23976, 59940, 120_000])]),
         (prop_oneof![2 => Just(0u8), 3 => 1u8..8], 0u8..8, prop::bool::weighted(0.8), prop_oneof![3 => Just(48000u32), 1 => Just(44100u32), 2 => 1u32..=192_000], 1u8..=8),
         proptest::option::weighted(
             0.4,
@@ -614,7 +614,7 @@ fn mux_strategy(invalid: bool) -> BoxedStrategy<MuxCase> {
                 // long titles of mixed character widths (a log line or a fixed-size field may cut them at a byte offset)
                 2 => "[a-zA-Z ]{0,3}[^\\x00-]{20,120}".prop_filter("no leading dash", |s: &String| !s.starts_with('-')),
                 // values a shell-minded wrapper might "clean up": surrounding quotes, surrounding blanks, an equals sign, a trailing backslash
-                1 => proptest::sample::select(vec!["\"Heroes\"", "'single'", "\"\"", "''", " padded ", "a=b", "back\\", "\"unbalanced", "$HOME", "%s%n", "line end\n", "crlf end\r\n", "cr end\r", "tab end\t"]).prop_map(|s| s.to_string()),
+                1 => proptest::sample::select(vec!["\"Heroes\"", "'single'", "\"\"", "''", " padded ", "a=b", "back\\", "\"unbalanced", "$HOME", "%s%n", "line end\n", "crlf end\r\n", "cr end\r", "tab end\t", "@video.hex", "@audio.hex", "@out.mp4", "@/etc/hostname", "file:video.hex", "<video.hex", "$(cat video.hex)"]).prop_map(|s| s.to_string()),
             ],
         ),
         proptest::option::weighted(0.4, prop_oneof![3 => "[a-z]{3}", 1 => "[a-zA-Z]{1,5}", 2 => proptest::sample::select(vec!["ger", "fre", "dut", "cze", "gre", "chi", "per", "rum", "slo", "wel", "baq", "arm", "geo", "ice", "mac", "mao", "may", "tib", "alb", "bur", "scc", "scr", "mol"]).prop_map(|s| s.to_string())]),
@@ -835,13 +835,15 @@ fn foreign_bytes(lib: &[u8], plan: &[(u8, u8)]) -> Option<Vec<u8>> {
     if tops.is_empty() {
         return None;
     }
-    let extras: [(&[u8; 4], usize); 6] = [(b"free", 0), (b"skip", 5), (b"wide", 0), (b"uuid", 16), (b"mdat", 33), (b"free", 300)];
+    // the last extra is a padding box sized so that the NEXT box header starts 1..7 bytes before a multiple of 8 KiB (a reader
+    // that fetches headers through a block buffer sees that header split across two blocks)
+    let extras: [(&[u8; 4], usize); 7] = [(b"free", 0), (b"skip", 5), (b"wide", 0), (b"uuid", 16), (b"mdat", 33), (b"free", 300), (b"free", usize::MAX)];
     let mut out = Vec::new();
     // ftyp stays first
     out.extend_from_slice(&lib[tops[0].start..tops[0].end]);
     let n = plan.len();
     for (k, (which, style)) in plan.iter().enumerate() {
-        let w = *which as usize % (tops.len() + extras.len());
+        let w = if *which == 255 { tops.len() + extras.len() - 1 } else { *which as usize % (tops.len() + extras.len()) };
         let (typ, payload): ([u8; 4], Vec<u8>) = if w < tops.len() {
             let t = &tops[w];
             if w == 0 {
@@ -850,6 +852,15 @@ fn foreign_bytes(lib: &[u8], plan: &[(u8, u8)]) -> Option<Vec<u8>> {
             (t.typ, lib[t.start + t.hdr..t.end].to_vec())
         } else {
             let (t, len) = extras[w - tops.len()];
+            let len = if len == usize::MAX {
+                let j = 1 + (k + *style as usize) % 7;
+                let hdr = if style % 3 == 1 { 16 } else { 8 };
+                let after = out.len() + hdr;
+                let boundary = (after + j + 8191) / 8192 * 8192;
+                boundary - j - after
+            } else {
+                len
+            };
             (*t, (0..len).map(|i| (i * 7 + k) as u8).collect())
         };
         let last = k + 1 == n;
@@ -984,7 +995,7 @@ fn s_info(_: Tier) -> BoxedStrategy<InfoInput> {
             InfoInput::Bytes(v)
         }),
         3 => (valid_case_strategy(3, 3), any::<u16>(), prop_oneof![0u32..9, any::<u32>(), Just(u32::MAX)]).prop_map(|(c, a, w)| InfoInput::Mutated(c, a, w)),
-        3 => (valid_case_strategy(3, 3), proptest::collection::vec((0u8..12, 0u8..3), 1..7)).prop_map(|(c, plan)| InfoInput::Foreign(c, plan)),
+        3 => (valid_case_strategy(3, 3), proptest::collection::vec((prop_oneof![3 => 0u8..13, 1 => Just(255u8)], 0u8..3), 1..7)).prop_map(|(c, plan)| InfoInput::Foreign(c, plan)),
     ]
     .boxed()
 }
